@@ -54,38 +54,61 @@ expect_add(struct expect *e, RegisterInitCode c, long idx)
     e->n++;
 }
 
-/* does register r's default get loaded, and is it acceptable? */
+/* does an area load the defaults of its registers? */
+static bool
+area_loads_default(const struct aspec *a)
+{
+    return !a->nowrite && !(a->flags & REG_AF_SKIP_DEFAULTS);
+}
+
 static bool
 loads_default(const struct tspec *s, int ai)
 {
-    return !s->a[ai].nowrite && !(s->a[ai].flags & REG_AF_SKIP_DEFAULTS);
+    return area_loads_default(&s->a[ai]);
+}
+
+/* wholly inside one area (lists of any length) */
+static long
+area_containing_whole_l(const struct aspec *a, long na, const struct rspec *r)
+{
+    for (long i = 0; i < na; ++i)
+        if (r->addr >= a[i].base && (uint64_t)r->addr + ref_words(r->type) <= (uint64_t)a[i].base + a[i].size)
+            return i;
+    return -1;
 }
 
 static int
 area_containing_whole(const struct tspec *s, const struct rspec *r)
 {
-    /* wholly inside one area */
-    for (int i = 0; i < s->na; ++i)
-        if (r->addr >= s->a[i].base && (uint64_t)r->addr + ref_words(r->type) <= (uint64_t)s->a[i].base + s->a[i].size)
-            return i;
-    return -1;
+    return (int)area_containing_whole_l(s->a, s->na, r);
 }
 
+static bool
+default_acceptable(const struct rspec *r)
+{
+    const uint64_t bits = ref_bits(r->type, r->def);
+    bool okd = ref_storable(r->type, bits);
+    if (okd && r->ckind != K_FAIL)
+        okd = ref_constraint(r, r->def);
+    return okd;
+}
+
+/* the rule list of the statement, over lists of any length */
 static void
-reference(const struct tspec *s, struct expect *e)
+reference_lists(const struct aspec *a, long na, const struct rspec *r, long nr, struct expect *e)
 {
     e->n = 0;
-    if (s->na == 0) {
+    if (na == 0) {
         expect_add(e, REG_INIT_NO_AREAS, -1);
         return;
     }
     /* group 1: areas ascending and non-overlapping */
     {
         long ord = -1, ovl = -1;
-        for (int i = 1; i < s->na; ++i) {
-            if (s->a[i].base < s->a[i - 1].base) {
+        for (long i = 1; i < na; ++i) {
+            if (a[i].base < a[i - 1].base) {
                 if (ord < 0) ord = i;
-            } else if ((uint64_t)s->a[i].base < (uint64_t)s->a[i - 1].base + s->a[i - 1].size) {
+            } else if ((uint64_t)a[i].base < (uint64_t)a[i - 1].base + a[i - 1].size) {
                 if (ovl < 0) ovl = i;
             }
         }
@@ -105,33 +128,27 @@ reference(const struct tspec *s, struct expect *e)
      * register, reporting the lowest-index register violating any of them. */
     long sp_idx = -1;
     RegisterInitCode sp_code = REG_INIT_SUCCESS;
-    for (int i = 0; i < s->nr && sp_idx < 0; ++i) {
-        if (i > 0 && s->r[i].addr < s->r[i - 1].addr) {
+    for (long i = 0; i < nr && sp_idx < 0; ++i) {
+        if (i > 0 && r[i].addr < r[i - 1].addr) {
             sp_idx = i; sp_code = REG_INIT_ENTRY_INVALID_ORDER;
-        } else if (i > 0 && (uint64_t)s->r[i].addr < (uint64_t)s->r[i - 1].addr + ref_words(s->r[i - 1].type)) {
+        } else if (i > 0 && (uint64_t)r[i].addr < (uint64_t)r[i - 1].addr + ref_words(r[i - 1].type)) {
             sp_idx = i; sp_code = REG_INIT_ENTRY_ADDRESS_OVERLAP;
         } else {
-            const int ai = area_containing_whole(s, &s->r[i]);
+            const long ai = area_containing_whole_l(a, na, &r[i]);
             if (ai < 0) {
                 sp_idx = i; sp_code = REG_INIT_ENTRY_IN_MEMORY_HOLE;
-            } else if (loads_default(s, ai)) {
-                const uint64_t bits = ref_bits(s->r[i].type, s->r[i].def);
-                bool okd = ref_storable(s->r[i].type, bits);
-                if (okd && s->r[i].ckind != K_FAIL)
-                    okd = ref_constraint(&s->r[i], s->r[i].def);
-                if (!okd) {
-                    sp_idx = i; sp_code = REG_INIT_ENTRY_INVALID_DEFAULT;
-                }
+            } else if (area_loads_default(&a[ai]) && !default_acceptable(&r[i])) {
+                sp_idx = i; sp_code = REG_INIT_ENTRY_INVALID_DEFAULT;
             }
         }
     }
     /* group 2: registers ascending and non-overlapping */
     {
         long ord = -1, ovl = -1;
-        for (int i = 1; i < s->nr; ++i) {
-            if (s->r[i].addr < s->r[i - 1].addr) {
+        for (long i = 1; i < nr; ++i) {
+            if (r[i].addr < r[i - 1].addr) {
                 if (ord < 0) ord = i;
-            } else if ((uint64_t)s->r[i].addr < (uint64_t)s->r[i - 1].addr + ref_words(s->r[i - 1].type)) {
+            } else if ((uint64_t)r[i].addr < (uint64_t)r[i - 1].addr + ref_words(r[i - 1].type)) {
                 if (ovl < 0) ovl = i;
             }
         }
@@ -148,17 +165,15 @@ reference(const struct tspec *s, struct expect *e)
     /* group 3: every register wholly inside one area; every loaded default acceptable */
     {
         long hole = -1, bad = -1;
-        for (int i = 0; i < s->nr; ++i) {
-            const int ai = area_containing_whole(s, &s->r[i]);
+        for (long i = 0; i < nr; ++i) {
+            const long ai = area_containing_whole_l(a, na, &r[i]);
             if (ai < 0) {
                 if (hole < 0) hole = i;
-            } else if (loads_default(s, ai)) {
-                const uint64_t bits = ref_bits(s->r[i].type, s->r[i].def);
-                bool okd = ref_storable(s->r[i].type, bits);
-                if (okd && s->r[i].ckind != K_FAIL)
-                    okd = ref_constraint(&s->r[i], s->r[i].def);
-                if (!okd && bad < 0) bad = i;
+            } else if (area_loads_default(&a[ai])) {
+                if (!default_acceptable(&r[i]) && bad < 0) bad = i;
             }
+            if (hole >= 0 && bad >= 0)
+                break;
         }
         if (hole >= 0 || bad >= 0) {
             if (hole >= 0) expect_add(e, REG_INIT_ENTRY_IN_MEMORY_HOLE, hole);
@@ -171,7 +186,118 @@ reference(const struct tspec *s, struct expect *e)
     expect_add(e, REG_INIT_SUCCESS, -1);
 }
 
+static void
+reference(const struct tspec *s, struct expect *e)
+{
+    reference_lists(s->a, s->na, s->r, s->nr, e);
+}
+
 static long n_ok, n_bad;
+
+/* after a refused initialisation the typed, block, iteration and sanitise
+ * operations report the table as uninitialised */
+static bool
+check_uninitialised(RegisterTable *t, uint32_t base0, const char *odesc, int preinit, RegisterInitCode code)
+{
+    RegisterValue v;
+    memset(&v, 0, sizeof v);
+    v.type = REG_TYPE_UINT16;
+    RegisterAtom *buf = mc_exact(2);
+    buf[0] = 0;
+    RegisterAccessCode c[9];
+    c[0] = register_set(t, 0, v).code;
+    c[1] = register_set_unsafe(t, 0, v).code;
+    c[2] = register_get(t, 0, &v).code;
+    c[3] = register_block_read(t, base0, 1, buf).code;
+    c[4] = register_block_write(t, base0, 1, buf).code;
+    c[5] = register_foreach_in(t, 0, 16, noop_cb, NULL).code;
+    c[6] = register_sanitise(t).code;
+    v.type = REG_TYPE_UINT16;
+    c[7] = register_bit_set(t, 0, v).code;
+    c[8] = register_bit_clear(t, 0, v).code;
+    mc_trans(9);
+    free(buf);
+    static const char *opn[9] = { "set", "set_unsafe", "get", "block_read", "block_write", "foreach_in", "sanitise", "bit_set", "bit_clear" };
+    for (int i = 0; i < 9; ++i)
+        if (c[i] != REG_ACCESS_UNINITIALISED) {
+            mc_fail("C04/failed-init-leaves-uninitialised", "%s preinit=%d: after %s, register_%s answered code %d instead of UNINITIALISED",
+                    odesc, preinit, initname(code), opn[i], c[i]);
+            return false;
+        }
+    return true;
+}
+
+/* ---- iteration as an observer of the area entry records ------------------------
+ * What an area "records" about its registers is what range iteration starts
+ * from.  The record is a function of the description alone, so two table
+ * objects with the same description -- one fresh (zeroed descriptors), one with
+ * a past (dirty descriptors, earlier initialisations) -- must iterate alike.
+ * Only the two objects are compared with each other; what iteration has to
+ * visit is C03's business. */
+#define IT_MAX 8
+struct itsig {
+    int code, n;
+    uint32_t h[IT_MAX];
+};
+
+static int
+it_collect(RegisterTable *t, RegisterHandle h, void *arg)
+{
+    struct itsig *s = arg;
+    (void)t;
+    if (s->n < IT_MAX)
+        s->h[s->n] = (uint32_t)h;
+    s->n++;
+    return 0;
+}
+
+static void
+iter_sig(RegisterTable *t, uint32_t addr, uint32_t len, struct itsig *s)
+{
+    memset(s, 0, sizeof *s);
+    s->code = (int)register_foreach_in(t, addr, len, it_collect, s).code;
+    mc_trans(1);
+}
+
+static bool
+itsig_equal(const struct itsig *a, const struct itsig *b)
+{
+    if (a->code != b->code || a->n != b->n)
+        return false;
+    for (int i = 0; i < a->n && i < IT_MAX; ++i)
+        if (a->h[i] != b->h[i])
+            return false;
+    return true;
+}
+
+static const char *
+itsig_str(const struct itsig *a, char *buf, size_t n)
+{
+    size_t l = (size_t)snprintf(buf, n, "code %d visits [", a->code);
+    for (int i = 0; i < a->n && i < IT_MAX && l + 14 < n; ++i)
+        l += (size_t)snprintf(buf + l, n - l, "%s%u", i ? " " : "", a->h[i]);
+    snprintf(buf + l, n - l, "]");
+    return buf;
+}
+
+/* every window [addr, addr+len) inside lo..hi: both tables iterate alike */
+static bool
+iter_same(RegisterTable *past, RegisterTable *fresh, uint32_t lo, uint32_t hi, const char *odesc, const char *what)
+{
+    for (uint32_t a = lo; a <= hi; ++a)
+        for (uint32_t len = 1; len <= hi - a + 1; ++len) {
+            struct itsig x, y;
+            iter_sig(past, a, len, &x);
+            iter_sig(fresh, a, len, &y);
+            if (!itsig_equal(&x, &y)) {
+                char bx[96], by[96];
+                mc_fail("C04/area-record-independent-of-history", "%s: iterating over [%u,+%u) on the %s table: %s; on a fresh table with the same description: %s",
+                        odesc, a, len, what, itsig_str(&x, bx, sizeof bx), itsig_str(&y, by, sizeof by));
+                return false;
+            }
+        }
+    return true;
+}
 
 static bool
 one_init(const struct tspec *s, bool preinit, const char *odesc, bool dirty, long fault_k)
@@ -239,32 +365,8 @@ one_init(const struct tspec *s, bool preinit, const char *odesc, bool dirty, lon
     } else if (!want_success) {
         n_bad++;
         /* every operation reports the table as uninitialised */
-        RegisterValue v;
-        memset(&v, 0, sizeof v);
-        v.type = REG_TYPE_UINT16;
-        RegisterAtom *buf = mc_exact(2);
-        buf[0] = 0;
-        RegisterAccessCode c[9];
-        c[0] = register_set(&tb.t, 0, v).code;
-        c[1] = register_set_unsafe(&tb.t, 0, v).code;
-        c[2] = register_get(&tb.t, 0, &v).code;
-        c[3] = register_block_read(&tb.t, s->na ? s->a[0].base : 0, 1, buf).code;
-        c[4] = register_block_write(&tb.t, s->na ? s->a[0].base : 0, 1, buf).code;
-        c[5] = register_foreach_in(&tb.t, 0, 16, noop_cb, NULL).code;
-        c[6] = register_sanitise(&tb.t).code;
-        v.type = REG_TYPE_UINT16;
-        c[7] = register_bit_set(&tb.t, 0, v).code;
-        c[8] = register_bit_clear(&tb.t, 0, v).code;
-        mc_trans(9);
-        free(buf);
-        static const char *opn[9] = { "set", "set_unsafe", "get", "block_read", "block_write", "foreach_in", "sanitise", "bit_set", "bit_clear" };
-        for (int i = 0; i < 9; ++i)
-            if (c[i] != REG_ACCESS_UNINITIALISED) {
-                mc_fail("C04/failed-init-leaves-uninitialised", "%s preinit=%d: after %s, register_%s answered code %d instead of UNINITIALISED",
-                        odesc, preinit, initname(ri.code), opn[i], c[i]);
-                ok = false;
-                break;
-            }
+        if (!check_uninitialised(&tb.t, s->na ? s->a[0].base : 0, odesc, preinit, ri.code))
+            ok = false;
     } else {
         n_ok++;
         /* defaults, zeroed memory, area entry ranges */
@@ -311,6 +413,22 @@ one_init(const struct tspec *s, bool preinit, const char *odesc, bool dirty, lon
                         odesc, ai, a->entry.first, a->entry.last, a->entry.count, cnt, first);
                 ok = false;
             }
+        }
+        if (ok && dirty) {
+            /* the same description in a fresh object iterates alike */
+            static struct tab twin;
+            tab_build(&twin, s);
+            RegisterInit r2 = register_init(&twin.t);
+            mc_trans(1);
+            if (r2.code == REG_INIT_SUCCESS) {
+                uint32_t hi = 0;
+                for (int i = 0; i < s->na; ++i)
+                    if (s->a[i].base + s->a[i].size > hi)
+                        hi = s->a[i].base + s->a[i].size;
+                ok = iter_same(&tb.t, &twin.t, 0, hi + 1, odesc, "dirty-descriptor");
+            }
+            tab_free(&twin);
+            g_tab = &tb;
         }
     }
     tab_free(&tb);
@@ -361,6 +479,14 @@ static void
 run_lists(const struct grid *g, const uint32_t *ab, const uint32_t *as, int na, const uint32_t *ra, const uint32_t *rsz, int nr, int64_t *ncase)
 {
     char desc[240];
+    if (!mc_would_run()) {
+        /* not this shard's case: number it without formatting its descriptor
+         * (a shard restarted behind a crash has to get past millions of these
+         * before the watchdog's patience ends) */
+        (*ncase)++;
+        mc_skip_case();
+        return;
+    }
     size_t l = (size_t)snprintf(desc, sizeof desc, "areas[");
     for (int i = 0; i < na; ++i)
         l += (size_t)snprintf(desc + l, sizeof desc - l, "%s%u+%u", i ? " " : "", ab[i], as[i]);
@@ -464,12 +590,1054 @@ enum_all(const struct grid *g, int64_t *ncase)
     }
 }
 
+/* =====================================================================================
+ * Tables of any size: wide geometries, long lists, objects with a past
+ * =====================================================================================
+ * A second builder next to regtab.h's: area and register lists of any length,
+ * callback-backed areas over a sparse store (so an area of 2^17 words costs
+ * nothing), and descriptor arrays with a capacity that can be described again
+ * (the internal fields of the descriptors -- area entry records, entry area
+ * link/offset/flags, table flags and counts -- survive a new description, as
+ * they do when firmware edits a table in place and initialises it again). */
+
+#define GT_PAGES 16
+#define GT_PAGE_WORDS 256
+#define GT_SPARSE_MIN 4096 /* callback-backed areas above this size start on the paged store */
+
+struct gtab {
+    RegisterTable t;
+    long capa, capr;
+    RegisterArea *areas;    /* capa + 1, exact heap block */
+    RegisterEntry *entries; /* capr + 1, exact heap block */
+    long na, nr;            /* current description (borrowed arrays) */
+    const struct aspec *a;
+    const struct rspec *r;
+    RegisterAtom **store;   /* per area slot; NULL: paged */
+    uint32_t *store_words;
+    /* paged store of the big callback-backed areas: words never written read
+     * 0xa5a5; when the pages run out the area gets a real block */
+    struct {
+        long area;
+        uint32_t page;
+        RegisterAtom w[GT_PAGE_WORDS];
+    } pg[GT_PAGES];
+    int npg;
+    long cb_oob, cb_writes;
+};
+
+static struct gtab *g_gt; /* the table the g_cb_* callbacks belong to */
+
+static RegisterAtom *
+g_page(struct gtab *g, long area, uint32_t page, bool create)
+{
+    for (int j = 0; j < g->npg; ++j)
+        if (g->pg[j].area == area && g->pg[j].page == page)
+            return g->pg[j].w;
+    if (!create || g->npg == GT_PAGES)
+        return NULL;
+    g->pg[g->npg].area = area;
+    g->pg[g->npg].page = page;
+    memset(g->pg[g->npg].w, 0xa5, sizeof g->pg[g->npg].w);
+    return g->pg[g->npg++].w;
+}
+
+/* the pages ran out: the area continues on a real block */
+static void
+g_promote(struct gtab *g, long area)
+{
+    const uint32_t words = g->a[area].size;
+    RegisterAtom *blk = mc_exact((size_t)words * sizeof(RegisterAtom));
+    memset(blk, 0xa5, (size_t)words * sizeof(RegisterAtom));
+    for (int j = 0; j < g->npg; ++j)
+        if (g->pg[j].area == area)
+            for (uint32_t k = 0; k < GT_PAGE_WORDS; ++k) {
+                const uint64_t off = (uint64_t)g->pg[j].page * GT_PAGE_WORDS + k;
+                if (off < words)
+                    blk[off] = g->pg[j].w[k];
+            }
+    g->store[area] = blk;
+    g->store_words[area] = words;
+}
+
+static RegisterAccess
+g_cb_read(const RegisterArea *a, RegisterAtom *dest, RegisterOffset off, RegisterOffset n)
+{
+    RegisterAccess rv = REG_ACCESS_RESULT_INIT;
+    struct gtab *g = g_gt;
+    const long i = (long)(a - g->areas);
+    if (i < 0 || i >= g->na || (uint64_t)off + n > g->a[i].size) {
+        g->cb_oob++;
+        for (RegisterOffset k = 0; k < n; ++k)
+            dest[k] = 0xdead;
+        return rv;
+    }
+    if (g->store[i]) {
+        memcpy(dest, g->store[i] + off, n * sizeof(RegisterAtom));
+        return rv;
+    }
+    for (RegisterOffset k = 0; k < n; ++k) {
+        const RegisterAtom *p = g_page(g, i, (off + k) / GT_PAGE_WORDS, false);
+        dest[k] = p ? p[(off + k) % GT_PAGE_WORDS] : 0xa5a5;
+    }
+    return rv;
+}
+
+static RegisterAccess
+g_cb_write(RegisterArea *a, const RegisterAtom *src, RegisterOffset off, RegisterOffset n)
+{
+    RegisterAccess rv = REG_ACCESS_RESULT_INIT;
+    struct gtab *g = g_gt;
+    const long i = (long)(a - g->areas);
+    g->cb_writes++;
+    if (i < 0 || i >= g->na || (uint64_t)off + n > g->a[i].size) {
+        g->cb_oob++;
+        return rv;
+    }
+    for (RegisterOffset k = 0; k < n; ++k) {
+        if (!g->store[i]) {
+            RegisterAtom *p = g_page(g, i, (off + k) / GT_PAGE_WORDS, true);
+            if (p) {
+                p[(off + k) % GT_PAGE_WORDS] = src[k];
+                continue;
+            }
+            g_promote(g, i);
+        }
+        g->store[i][off + k] = src[k];
+    }
+    return rv;
+}
+
+static void
+gtab_alloc(struct gtab *g, long capa, long capr)
+{
+    memset(g, 0, sizeof *g);
+    g->capa = capa;
+    g->capr = capr;
+    g->areas = mc_exact((size_t)(capa + 1) * sizeof(RegisterArea));
+    g->entries = mc_exact((size_t)(capr + 1) * sizeof(RegisterEntry));
+    memset(g->areas, 0, (size_t)(capa + 1) * sizeof(RegisterArea));
+    memset(g->entries, 0, (size_t)(capr + 1) * sizeof(RegisterEntry));
+    g->store = calloc((size_t)capa + 1, sizeof *g->store);
+    g->store_words = calloc((size_t)capa + 1, sizeof *g->store_words);
+    if (!g->store || !g->store_words)
+        mc_broken("out of memory");
+}
+
+static void
+gtab_drop_stores(struct gtab *g)
+{
+    for (long i = 0; i < g->capa; ++i) {
+        free(g->store[i]);
+        g->store[i] = NULL;
+        g->store_words[i] = 0;
+    }
+}
+
+static void
+gtab_free(struct gtab *g)
+{
+    if (!g->areas)
+        return;
+    gtab_drop_stores(g);
+    free(g->store);
+    free(g->store_words);
+    free(g->areas);
+    free(g->entries);
+    memset(g, 0, sizeof *g);
+}
+
+/* a fresh object: zeroed descriptors, as static storage is */
+static void
+gtab_fresh(struct gtab *g)
+{
+    memset(g->areas, 0, (size_t)(g->capa + 1) * sizeof(RegisterArea));
+    memset(g->entries, 0, (size_t)(g->capr + 1) * sizeof(RegisterEntry));
+    memset(&g->t, 0, sizeof g->t);
+}
+
+static void
+entry_describe(RegisterEntry *e, const struct rspec *r)
+{
+    e->type = r->type;
+    e->default_value = r->def;
+    e->address = r->addr;
+    e->name = NULL;
+    memset(&e->check, 0, sizeof e->check);
+    switch (r->ckind) {
+    case K_NONE: e->check.type = REGV_TYPE_TRIVIAL; break;
+    case K_FAIL: e->check.type = REGV_TYPE_FAIL; break;
+    case K_MIN: e->check.type = REGV_TYPE_MIN; e->check.arg.min = r->lo; break;
+    case K_MAX: e->check.type = REGV_TYPE_MAX; e->check.arg.max = r->hi; break;
+    case K_RANGE:
+        e->check.type = REGV_TYPE_RANGE;
+        e->check.arg.range.min = r->lo;
+        e->check.arg.range.max = r->hi;
+        break;
+    case K_CB: e->check.type = REGV_TYPE_CALLBACK; e->check.arg.cb = rt_validator; break;
+    }
+}
+
+/* writes the description (and the two sentinels) into the descriptor arrays;
+ * everything else in them is left as it is.  real_cb: callback-backed areas
+ * get a real block whatever their size. */
+static void
+gtab_describe(struct gtab *g, const struct aspec *a, long na, const struct rspec *r, long nr, bool be, bool real_cb)
+{
+    static const RegisterArea area_end = REGISTER_AREA_END;
+    static const RegisterEntry entry_end = REGISTER_ENTRY_END;
+    if (na > g->capa || nr > g->capr)
+        mc_broken("gtab capacity");
+    g->a = a;
+    g->na = na;
+    g->r = r;
+    g->nr = nr;
+    for (long i = 0; i < g->capa; ++i) {
+        const bool want = i < na && !(a[i].cb && !real_cb && a[i].size > GT_SPARSE_MIN);
+        if (!want || g->store_words[i] != a[i].size || !g->store[i]) {
+            free(g->store[i]);
+            g->store[i] = NULL;
+            g->store_words[i] = 0;
+            if (want) {
+                g->store[i] = mc_exact((size_t)a[i].size * sizeof(RegisterAtom));
+                g->store_words[i] = a[i].size;
+            }
+        }
+        if (want)
+            memset(g->store[i], 0xa5, (size_t)a[i].size * sizeof(RegisterAtom));
+    }
+    for (long i = 0; i < na; ++i) {
+        RegisterArea *d = &g->areas[i];
+        d->flags = a[i].flags;
+        d->base = a[i].base;
+        d->size = a[i].size;
+        if (a[i].cb) {
+            d->read = g_cb_read;
+            d->write = a[i].nowrite ? NULL : g_cb_write;
+            d->mem = NULL;
+        } else {
+            d->read = reg_mem_read;
+            d->write = a[i].nowrite ? NULL : reg_mem_write;
+            d->mem = g->store[i];
+        }
+    }
+    g->areas[na] = area_end;
+    for (long i = 0; i < nr; ++i)
+        entry_describe(&g->entries[i], &r[i]);
+    g->entries[nr] = entry_end;
+    g->t.area = g->areas;
+    g->t.entry = g->entries;
+    register_make_bigendian(&g->t, be);
+    g->npg = 0;
+    g->cb_oob = g->cb_writes = 0;
+    g_gt = g;
+}
+
+static bool
+words_zero(const RegisterAtom *p, size_t n, size_t *where)
+{
+    static const RegisterAtom zero[512];
+    size_t done = 0;
+    while (done < n) {
+        const size_t k = n - done < 512 ? n - done : 512;
+        if (memcmp(p + done, zero, k * sizeof(RegisterAtom)) != 0) {
+            for (size_t i = 0; i < k; ++i)
+                if (p[done + i] != 0) {
+                    *where = done + i;
+                    return false;
+                }
+        }
+        done += k;
+    }
+    return true;
+}
+
+static long *g_ai;
+static long g_ai_cap;
+
+static const char *lists_str(const struct aspec *a, long na, const struct rspec *r, long nr, char *buf, size_t n);
+
+/* description of the table under test, formatted only when somebody reads it */
+static const char *
+g_desc(const struct gtab *g, const char *prefix)
+{
+    static char buf[420];
+    const size_t l = (size_t)snprintf(buf, sizeof buf, "%s%s%s ", prefix, prefix[0] ? ": " : "", (g->t.flags & REG_TF_BIG_ENDIAN) ? "BE" : "LE");
+    if (l < sizeof buf)
+        lists_str(g->a, g->na, g->r, g->nr, buf + l, sizeof buf - l);
+    return buf;
+}
+#define odesc g_desc(g, prefix)
+
+/* initialise the described table and hold the result against the statement */
+static bool
+g_init_and_check(struct gtab *g, const char *prefix, bool *accepted)
+{
+    struct expect e;
+    const struct aspec *a = g->a;
+    const struct rspec *r = g->r;
+    const long na = g->na, nr = g->nr;
+    reference_lists(a, na, r, nr, &e);
+    RegisterInit ri = register_init(&g->t);
+    mc_trans(1);
+    long idx = -1;
+    switch (ri.code) {
+    case REG_INIT_AREA_INVALID_ORDER: case REG_INIT_AREA_ADDRESS_OVERLAP: idx = ri.pos.area; break;
+    case REG_INIT_ENTRY_INVALID_ORDER: case REG_INIT_ENTRY_ADDRESS_OVERLAP:
+    case REG_INIT_ENTRY_IN_MEMORY_HOLE: case REG_INIT_ENTRY_INVALID_DEFAULT: idx = ri.pos.entry; break;
+    default: break;
+    }
+    if (mc.only >= 0)
+        mc_log("%s -> %s@%ld; reference: %s@%ld%s%s", odesc, initname(ri.code), idx, initname(e.code[0]), e.index[0],
+               e.n > 1 ? " or " : "", e.n > 1 ? initname(e.code[1]) : "");
+    const bool want_success = e.code[0] == REG_INIT_SUCCESS;
+    bool match = false;
+    for (int i = 0; i < e.n; ++i)
+        if (ri.code == e.code[i] && (e.index[i] < 0 || e.index[i] == idx))
+            match = true;
+    *accepted = ri.code == REG_INIT_SUCCESS;
+    if (!match) {
+        if (want_success)
+            mc_fail("C04/accepts-well-formed", "%s: well-formed table refused with %s@%ld", odesc, initname(ri.code), idx);
+        else if (ri.code == REG_INIT_SUCCESS)
+            mc_fail("C04/refuses-malformed", "%s: malformed table accepted; reference says %s@%ld", odesc, initname(e.code[0]), e.index[0]);
+        else {
+            char alt[120];
+            size_t l = 0;
+            alt[0] = 0;
+            for (int i = 1; i < e.n && l + 40 < sizeof alt; ++i)
+                l += (size_t)snprintf(alt + l, sizeof alt - l, " or %s@%ld", initname(e.code[i]), e.index[i]);
+            mc_fail("C04/first-violated-rule", "%s: reported %s@%ld; reference says %s@%ld%s", odesc, initname(ri.code), idx, initname(e.code[0]), e.index[0], alt);
+        }
+        return false;
+    }
+    if (!want_success) {
+        n_bad++;
+        return check_uninitialised(&g->t, na ? a[0].base : 0, odesc, 0, ri.code);
+    }
+    n_ok++;
+    if (nr > g_ai_cap) {
+        free(g_ai);
+        g_ai_cap = nr + 16;
+        g_ai = malloc((size_t)g_ai_cap * sizeof *g_ai);
+        if (!g_ai)
+            mc_broken("out of memory");
+    }
+    /* each register of an area that loads defaults reads back its default */
+    for (long i = 0; i < nr; ++i) {
+        const long ai = g_ai[i] = area_containing_whole_l(a, na, &r[i]);
+        if (!area_loads_default(&a[ai]))
+            continue;
+        RegisterValue v;
+        memset(&v, 0, sizeof v);
+        RegisterAccess ga = register_get(&g->t, (RegisterHandle)i, &v);
+        mc_trans(1);
+        if (ga.code != REG_ACCESS_SUCCESS || v.type != r[i].type || ref_bits(v.type, v.value) != ref_bits(r[i].type, r[i].def)) {
+            mc_fail("C04/defaults-loaded", "%s: register %ld reads %016llx (code %d), default is %016llx", odesc, i,
+                    (unsigned long long)ref_bits(r[i].type, v.value), ga.code, (unsigned long long)ref_bits(r[i].type, r[i].def));
+            return false;
+        }
+    }
+    /* every other word of memory-backed areas is zero; registers are
+     * ascending here, and so are the areas */
+    {
+        long i = 0;
+        for (long ai = 0; ai < na; ++ai) {
+            uint32_t w = 0; /* next word of the area to be looked at */
+            const bool look = !a[ai].cb;
+            size_t where = 0;
+            while (i < nr && g_ai[i] < ai)
+                ++i;
+            for (; i < nr && g_ai[i] == ai; ++i) {
+                if (!area_loads_default(&a[ai]))
+                    continue;
+                const uint32_t off = r[i].addr - a[ai].base;
+                if (look && !words_zero(g->store[ai] + w, off - w, &where)) {
+                    mc_fail("C04/other-words-zero", "%s: area %ld word %lu is %04x after init", odesc, ai, (unsigned long)(w + where), g->store[ai][w + where]);
+                    return false;
+                }
+                w = off + ref_words(r[i].type);
+            }
+            if (look && !words_zero(g->store[ai] + w, a[ai].size - w, &where)) {
+                mc_fail("C04/other-words-zero", "%s: area %ld word %lu is %04x after init", odesc, ai, (unsigned long)(w + where), g->store[ai][w + where]);
+                return false;
+            }
+        }
+    }
+    /* each area records exactly the contiguous run of registers located in it */
+    {
+        long i = 0;
+        for (long ai = 0; ai < na; ++ai) {
+            while (i < nr && g_ai[i] < ai)
+                ++i;
+            const long first = i;
+            while (i < nr && g_ai[i] == ai)
+                ++i;
+            const long cnt = i - first;
+            const RegisterArea *d = &g->areas[ai];
+            if ((long)d->entry.count != cnt || (cnt > 0 && ((long)d->entry.first != first || (long)d->entry.last != first + cnt - 1))) {
+                mc_fail("C04/area-entry-range", "%s: area %ld records first=%lu last=%lu count=%lu; %ld registers from index %ld lie in it", odesc, ai,
+                        (unsigned long)d->entry.first, (unsigned long)d->entry.last, (unsigned long)d->entry.count, cnt, cnt ? first : -1L);
+                return false;
+            }
+        }
+    }
+    return true;
+}
+
+#undef odesc
+
+static const char *
+lists_str(const struct aspec *a, long na, const struct rspec *r, long nr, char *buf, size_t n)
+{
+    size_t l = (size_t)snprintf(buf, n, "areas[");
+    for (long i = 0; i < na && i < 4 && l + 40 < n; ++i)
+        l += (size_t)snprintf(buf + l, n - l, "%s0x%x+0x%x%s", i ? " " : "", a[i].base, a[i].size, a[i].cb ? ":cb" : "");
+    if (na > 4 && l + 40 < n)
+        l += (size_t)snprintf(buf + l, n - l, " ..(%ld)", na);
+    if (l + 40 < n)
+        l += (size_t)snprintf(buf + l, n - l, "] regs[");
+    for (long i = 0; i < nr && i < 4 && l + 40 < n; ++i)
+        l += (size_t)snprintf(buf + l, n - l, "%s0x%x+%u%s", i ? " " : "", r[i].addr, ref_words(r[i].type), default_acceptable(&r[i]) ? "" : "!");
+    if (nr > 4 && l + 40 < n)
+        l += (size_t)snprintf(buf + l, n - l, " ..(%ld)", nr);
+    if (l + 2 < n)
+        snprintf(buf + l, n - l, "]");
+    return buf;
+}
+
+/* ---- family W: wide geometries ----------------------------------------------------
+ * One area of S words at base B (S and B from a boundary family around 2^16,
+ * 2^17, 2^31 and the top of the address space), optionally with a small
+ * neighbour before or behind it; register lists of length 0..2 (3: thorough)
+ * over the addresses around the area start, around offset 2^16 inside it and
+ * around its end, sizes 1/2/4, in every order.  Register extents that would
+ * run past address 2^32-1 are not generated (wrapping ranges are outside the
+ * statement); areas may end exactly at 2^32. */
+
+static int
+wide_addresses(uint64_t B, uint64_t S, uint64_t *out)
+{
+    uint64_t cand[32];
+    int n = 0;
+    for (int d = -2; d <= 1; ++d)
+        cand[n++] = B + (uint64_t)(int64_t)d;
+    for (int d = -2; d <= 1; ++d)
+        if (0x10000u + d < S + 4)
+            cand[n++] = B + 0x10000u + (uint64_t)(int64_t)d;
+    for (int d = -4; d <= 2; ++d)
+        cand[n++] = B + S + (uint64_t)(int64_t)d;
+    int m = 0;
+    for (int i = 0; i < n; ++i) {
+        if (cand[i] > 0xffffffffull) /* includes the wrapped negatives */
+            continue;
+        bool dup = false;
+        for (int j = 0; j < m; ++j)
+            if (out[j] == cand[i])
+                dup = true;
+        if (!dup)
+            out[m++] = cand[i];
+    }
+    for (int i = 1; i < m; ++i)
+        for (int j = i; j > 0 && out[j] < out[j - 1]; --j) {
+            const uint64_t t = out[j];
+            out[j] = out[j - 1];
+            out[j - 1] = t;
+        }
+    return m;
+}
+
+static struct gtab wg;
+
+static void
+family_wide(bool thorough)
+{
+    static const uint64_t SZ[] = { 6, 0xffff, 0x10000, 0x10001, 0x10004, 0x1ffff, 0x20001 };
+    enum { NSZ = 7 };
+    for (int si = 0; si < NSZ; ++si) {
+        const uint64_t S = SZ[si];
+        uint64_t bases[12];
+        int nb = 0;
+        bases[nb++] = 0;
+        bases[nb++] = 0x1000;
+        bases[nb++] = 0xfffd;
+        bases[nb++] = 0x10000;
+        bases[nb++] = 0x7ffffffeull;
+        bases[nb++] = 0x80000000ull - S;
+        bases[nb++] = 0x100000000ull - S - 5;
+        bases[nb++] = 0x100000000ull - S - 2;
+        bases[nb++] = 0x100000000ull - S - 1;
+        bases[nb++] = 0x100000000ull - S;
+        for (int bi = 0; bi < nb; ++bi)
+            for (int nbr = 0; nbr < 6; ++nbr)
+                for (int backing = 0; backing < 2; ++backing) {
+                    const uint64_t B = bases[bi];
+                    /* neighbour: 0 none, 1 adjacent behind, 2 one word behind, 3 adjacent before,
+                     * 4 on the last two words (overlap), 5 adjacent before but listed behind (order) */
+                    struct aspec a[2];
+                    long na = 0;
+                    memset(a, 0, sizeof a);
+                    const struct aspec mainarea = { (uint32_t)B, (uint32_t)S, REG_AF_RW, backing == 0, false };
+                    if (nbr == 3) {
+                        if (B < 4)
+                            continue;
+                        a[na++] = (struct aspec){ (uint32_t)(B - 4), 4, REG_AF_RW, backing == 0, false };
+                    }
+                    a[na++] = mainarea;
+                    if (nbr == 1 || nbr == 2) {
+                        const uint64_t b2 = B + S + (nbr == 2);
+                        if (b2 + 4 > 0x100000000ull)
+                            continue;
+                        a[na++] = (struct aspec){ (uint32_t)b2, 4, REG_AF_RW, backing == 0, false };
+                    }
+                    if (nbr == 4)
+                        a[na++] = (struct aspec){ (uint32_t)(B + S - 2), 2, REG_AF_RW, backing == 0, false };
+                    if (nbr == 5) {
+                        if (B < 4)
+                            continue;
+                        a[na++] = (struct aspec){ (uint32_t)(B - 4), 4, REG_AF_RW, backing == 0, false };
+                    }
+                    if (!mc_case("wide: area 0x%llx+0x%llx %s, neighbour %s x register lists around start / offset 2^16 / end x bad-default masks x variants",
+                                 (unsigned long long)B, (unsigned long long)S, backing == 0 ? "callback-backed" : "memory-backed",
+                                 nbr == 0 ? "none" : nbr == 1 ? "adjacent behind" : nbr == 2 ? "one word behind" : nbr == 3 ? "adjacent before"
+                                 : nbr == 4 ? "on its last two words" : "adjacent before but listed behind"))
+                        continue;
+                    if (!wg.areas)
+                        gtab_alloc(&wg, 2, 3);
+                    uint64_t ia[32];
+                    const int nia = wide_addresses(B, S, ia);
+                    const int per = nia * 3;
+                    /* memory-backed: single registers and pairs led by a 16-bit
+                     * register at the area base (every init fills and scans the
+                     * whole block); callback-backed: every list */
+                    const int maxlen = nbr >= 4 ? 1 : (backing == 1) ? 2 : (thorough ? 3 : 2); /* a malformed area list is refused whatever the registers are */
+                    n_ok = n_bad = 0;
+                    bool ok = true;
+                    struct rspec r[3];
+                    for (int len = 0; len <= maxlen && ok; ++len) {
+                        int64_t total = 1;
+                        for (int i = 0; i < len; ++i)
+                            total *= per;
+                        for (int64_t x = 0; x < total && ok; ++x) {
+                            uint64_t addr[3];
+                            uint32_t words[3];
+                            int64_t y = x;
+                            bool skip = false;
+                            for (int i = 0; i < len; ++i) {
+                                const int el = (int)(y % per);
+                                y /= per;
+                                addr[i] = ia[el / 3];
+                                words[i] = RSZ[el % 3];
+                                if (addr[i] + words[i] > 0x100000000ull)
+                                    skip = true;
+                            }
+                            if (skip)
+                                continue;
+                            if (backing == 1 && len == 2 && !(addr[0] == B && words[0] == 1))
+                                continue;
+                            if (len == 3 && !(addr[0] <= addr[1] && addr[1] <= addr[2]))
+                                continue; /* three registers: ascending starts only */
+                            const int nmask = backing == 1 ? 1 : 1 << len;
+                            for (int mask = 0; mask < nmask && ok; ++mask)
+                                for (int variant = 0; variant < (backing == 1 ? 1 : 2) && ok; ++variant) {
+                                    for (int i = 0; i < len; ++i)
+                                        mkreg(&r[i], (uint32_t)addr[i], words[i], (mask >> i) & 1, variant + i);
+                                    gtab_fresh(&wg);
+                                    gtab_describe(&wg, a, na, r, len, variant, false);
+                                    bool acc;
+                                    ok = g_init_and_check(&wg, "", &acc);
+                                }
+                        }
+                    }
+                    mc_end(true, !ok ? "failed" : n_ok == 0 ? "wide-all-refused" : n_bad == 0 ? "wide-all-accepted" : "wide-mixed");
+                }
+    }
+}
+
+/* ---- family N: long register lists ---------------------------------------------------
+ * N 16-bit registers at the even addresses 0, 2, 4, ... (N from a boundary
+ * family around 2^8 and 2^16) in one area, or in two areas with one unmapped
+ * word between them after register s (s around the same boundaries); exactly
+ * one rule is violated at a chosen index k around the boundaries (or none):
+ *   order    register k starts below register k-1
+ *   overlap  register k starts where register k-1 starts
+ *   default  register k has a default its range refuses
+ *   hole     register s+1 starts on the unmapped word (two areas)
+ *   straddle register s is 32 bits wide: its second word is the unmapped one
+ *   beyond   the last register starts behind the last area
+ * After success every register is read back, so handles, area-relative
+ * offsets and the entry records of the second area straddle the boundaries,
+ * too. */
+
+enum nkind { NK_NONE, NK_ORDER, NK_OVERLAP, NK_DEFAULT, NK_HOLE, NK_STRADDLE, NK_BEYOND, NK_KINDS };
+static const char *NK_NAME[] = { "none", "order", "overlap", "bad default", "hole", "straddle", "beyond the last area" };
+
+static struct gtab ng;
+static struct rspec *n_regs;
+static long n_regs_cap;
+
+static void
+long_case(long N, long s, int kind, long k, bool cb)
+{
+    char where[48];
+    if (s < 0)
+        snprintf(where, sizeof where, "one area");
+    else
+        snprintf(where, sizeof where, "two areas, word %ld between them unmapped", 2 * s + 1);
+    char rule[64];
+    if (kind == NK_NONE)
+        snprintf(rule, sizeof rule, "no rule violated");
+    else
+        snprintf(rule, sizeof rule, "violated rule: %s at register %ld", NK_NAME[kind], k);
+    if (!mc_case("long list: %ld 16-bit registers at even addresses, %s, %s; %s", N, where, cb ? "callback-backed" : "memory-backed", rule))
+        return;
+    if (!ng.areas)
+        gtab_alloc(&ng, 2, 65600);
+    if (N > ng.capr)
+        mc_broken("long list capacity");
+    if (!n_regs) {
+        n_regs_cap = 65600;
+        n_regs = malloc((size_t)n_regs_cap * sizeof *n_regs);
+        if (!n_regs)
+            mc_broken("out of memory");
+    }
+    struct aspec a[2];
+    long na;
+    memset(a, 0, sizeof a);
+    if (s < 0) {
+        a[0] = (struct aspec){ 0, (uint32_t)(2 * N + 2), REG_AF_RW, cb, false };
+        na = 1;
+    } else {
+        a[0] = (struct aspec){ 0, (uint32_t)(2 * s + 1), REG_AF_RW, cb, false };
+        a[1] = (struct aspec){ (uint32_t)(2 * s + 2), (uint32_t)(2 * N + 4 - (2 * s + 2)), REG_AF_RW, cb, false };
+        na = 2;
+    }
+    for (long i = 0; i < N; ++i)
+        mkreg(&n_regs[i], (uint32_t)(2 * i), 1, false, 0);
+    switch (kind) {
+    case NK_ORDER: n_regs[k].addr = (uint32_t)(2 * k - 3); break;
+    case NK_OVERLAP: n_regs[k].addr = (uint32_t)(2 * k - 2); break;
+    case NK_DEFAULT: mkreg(&n_regs[k], (uint32_t)(2 * k), 1, true, 0); break;
+    case NK_HOLE: n_regs[k].addr = (uint32_t)(2 * k - 1); break;        /* k == s + 1: the unmapped word */
+    case NK_STRADDLE: mkreg(&n_regs[k], (uint32_t)(2 * k), 2, false, 0); break; /* k == s */
+    case NK_BEYOND: n_regs[k].addr = (uint32_t)(2 * N + 4); break;      /* k == N - 1 */
+    default: break;
+    }
+    gtab_fresh(&ng);
+    gtab_describe(&ng, a, na, n_regs, N, (N & 1) != 0, true);
+    n_ok = n_bad = 0;
+    bool acc;
+    const bool ok = g_init_and_check(&ng, "", &acc);
+    mc_end(true, !ok ? "failed" : acc ? "long-accepted" : "long-refused");
+}
+
+static void
+family_long(bool thorough)
+{
+    static const long NQ[] = { 255, 256, 257, 258, 65535, 65536, 65537, 65538 };
+    for (unsigned ni = 0; ni < sizeof NQ / sizeof NQ[0]; ++ni) {
+        const long N = NQ[ni];
+        const long b = N < 1000 ? 256 : 65536;
+        /* split positions and violation indices around the boundary */
+        long ss[5], ns = 0;
+        ss[ns++] = -1;
+        for (long d = -2; d <= 1; ++d)
+            if (b + d >= 1 && b + d <= N - 2)
+                ss[ns++] = b + d;
+        for (long si = 0; si < ns; ++si)
+            for (int cb = 0; cb < 2; ++cb) {
+                const long s = ss[si];
+                if (cb && !thorough && !(s < 0 || s == b))
+                    continue; /* quick: callback-backed for one area and for the split on the boundary */
+                long_case(N, s, NK_NONE, 0, cb);
+                for (int kind = NK_ORDER; kind <= NK_DEFAULT; ++kind) {
+                    long ks[6], nk = 0;
+                    ks[nk++] = 2;
+                    for (long d = -1; d <= 1; ++d)
+                        if (b + d >= 2 && b + d < N - 1)
+                            ks[nk++] = b + d;
+                    ks[nk++] = N - 1;
+                    for (long ki = 0; ki < nk; ++ki) {
+                        /* the unmapped word sits between registers s and s+1:
+                         * order/overlap edits that would move a register across
+                         * it change which rule is violated first -- the
+                         * reference decides, nothing to exclude */
+                        long_case(N, s, kind, ks[ki], cb);
+                    }
+                }
+                if (s >= 0) {
+                    long_case(N, s, NK_HOLE, s + 1, cb);
+                    long_case(N, s, NK_STRADDLE, s, cb);
+                }
+                long_case(N, s, NK_BEYOND, N - 1, cb);
+            }
+    }
+}
+
+/* ---- family A: long area lists -------------------------------------------------------
+ * NA areas of 4 words at bases 0, 8, 16, ... (NA around 2^8), one 16-bit
+ * register in every area (or only in the areas whose index is not 1 mod 3, so
+ * that empty areas lie between populated ones); one rule violated at an index
+ * k around 2^8, or none:
+ *   area order    area k starts one word below area k-1
+ *   area overlap  area k starts on the last word of area k-1
+ *   hole          the register of area k starts behind it, in the gap
+ *   straddle      the register of area k is 32 bits wide on the area's last word
+ *   default       the register of area k has a default its range refuses */
+
+enum akind { AK_NONE, AK_AORDER, AK_AOVERLAP, AK_HOLE, AK_STRADDLE, AK_DEFAULT, AK_KINDS };
+static const char *AK_NAME[] = { "none", "area order", "area overlap", "hole", "straddle", "bad default" };
+
+static struct gtab ag;
+
+static void
+family_areas(bool thorough)
+{
+    (void)thorough;
+    static struct aspec a[300];
+    static struct rspec r[300];
+    for (long NA = 254; NA <= 258; ++NA)
+        for (int sparse = 0; sparse < 2; ++sparse)
+            for (int cb = 0; cb < 2; ++cb)
+                for (int kind = AK_NONE; kind < AK_KINDS; ++kind) {
+                    static const long KS[] = { 3, 254, 255, 256, 257 };
+                    for (unsigned ki = 0; ki < (kind == AK_NONE ? 1 : 5); ++ki) {
+                        const long k = KS[ki];
+                        if (kind != AK_NONE && k >= NA)
+                            continue;
+                        char rule[64];
+                        if (kind == AK_NONE)
+                            snprintf(rule, sizeof rule, "no rule violated");
+                        else
+                            snprintf(rule, sizeof rule, "violated rule: %s at index %ld", AK_NAME[kind], k);
+                        if (!mc_case("long area list: %ld areas of 4 words at multiples of 8, %s, %s; %s", NA,
+                                     sparse ? "a register in every area whose index is not 1 mod 3" : "a register in every area",
+                                     cb ? "callback-backed" : "memory-backed", rule))
+                            continue;
+                        if (!ag.areas)
+                            gtab_alloc(&ag, 300, 300);
+                        memset(a, 0, sizeof a);
+                        for (long i = 0; i < NA; ++i)
+                            a[i] = (struct aspec){ (uint32_t)(8 * i), 4, REG_AF_RW, cb, false };
+                        if (kind == AK_AORDER)
+                            a[k].base = a[k - 1].base - 1;
+                        if (kind == AK_AOVERLAP)
+                            a[k].base = a[k - 1].base + 3;
+                        long nr = 0;
+                        for (long i = 0; i < NA; ++i) {
+                            /* the area the violation is about always has its register */
+                            if (sparse && i % 3 == 1 && i != k)
+                                continue;
+                            uint32_t addr = (uint32_t)(8 * i + (i & 3));
+                            if (kind == AK_AORDER && i == k)
+                                addr = a[k].base; /* stays inside the moved area */
+                            if (kind == AK_AOVERLAP && i == k)
+                                addr = a[k].base + 1;
+                            if (i == k && kind == AK_HOLE)
+                                mkreg(&r[nr], (uint32_t)(8 * i + 4 + (i & 1)), 1, false, 0);
+                            else if (i == k && kind == AK_STRADDLE)
+                                mkreg(&r[nr], (uint32_t)(8 * i + 3), 2, false, 0);
+                            else if (i == k && kind == AK_DEFAULT)
+                                mkreg(&r[nr], addr, 1, true, 0);
+                            else
+                                mkreg(&r[nr], addr, 1, false, 0);
+                            nr++;
+                        }
+                        gtab_fresh(&ag);
+                        gtab_describe(&ag, a, NA, r, nr, (NA & 1) != 0, false);
+                        n_ok = n_bad = 0;
+                        bool acc;
+                        const bool ok = g_init_and_check(&ag, "", &acc);
+                        mc_end(true, !ok ? "failed" : acc ? "long-accepted" : "long-refused");
+                    }
+                }
+}
+
+/* ---- family H: table objects with a past ----------------------------------------------
+ * Every ordered pair (D1, D2) of descriptions from a family: the descriptor
+ * arrays are described with D1 and initialised (successfully or not), then
+ * described with D2 in place and initialised again.  The verdict on D2 and all
+ * post-conditions are the statement's, exactly as for a fresh object; on top,
+ * the re-initialised object and a fresh object with description D2 must iterate
+ * alike over every window.
+ *
+ * Reduction: what the first initialisation leaves behind is the internal part
+ * of the descriptors (table flags and counts; per area slot the entry record;
+ * per entry slot the area link, offset and flags).  The D1 are grouped by that
+ * residue (full comparison of a canonical key), and every D2 is run once per
+ * distinct residue, with the first D1 producing it named in the report.  A
+ * case is one D2; case numbering does not depend on the library. */
+
+#define H_CAPA 3
+#define H_CAPR 4
+
+struct hdesc {
+    int na, nr;
+    struct aspec a[H_CAPA];
+    struct rspec r[H_CAPR];
+    bool be;
+};
+
+struct hresidue {
+    RegisterTable t;
+    RegisterArea areas[H_CAPA + 1];
+    RegisterEntry entries[H_CAPR + 1];
+    char text[230]; /* the first D1 that leaves it behind */
+};
+
+struct hkey {
+    uint32_t flags, areas, entries;
+    uint32_t afirst[H_CAPA + 1], alast[H_CAPA + 1], acount[H_CAPA + 1];
+    int32_t elink[H_CAPR + 1];
+    uint32_t eoff[H_CAPR + 1], eflags[H_CAPR + 1];
+};
+
+typedef void (*hfn)(const struct hdesc *d);
+
+static void
+hdesc_emit(hfn fn, const struct aspec *a, int na, bool cb, const uint32_t *ra, const uint32_t *rw, const bool *bad, int nr, int variant)
+{
+    struct hdesc d;
+    memset(&d, 0, sizeof d);
+    d.na = na;
+    d.nr = nr;
+    d.be = variant & 1;
+    for (int i = 0; i < na; ++i) {
+        d.a[i] = a[i];
+        d.a[i].cb = cb;
+    }
+    for (int i = 0; i < nr; ++i)
+        mkreg(&d.r[i], ra[i], rw[i], bad[i], variant + i);
+    fn(&d);
+}
+
+/* The family, in a fixed order.  Area layouts over addresses 0..8: none, one,
+ * two and three areas, adjacent and with holes, reversed, overlapping.
+ * Register lists over addresses 0..7:
+ *   quick     sizes {1,2}: every list of length 0..2 (last default good/bad),
+ *             every triple with non-descending starts, every strictly
+ *             ascending 16-bit quadruple; memory-backed, and callback-backed
+ *             for the lists of length 0..2
+ *   thorough  sizes {1,2,4}: every list of length 0..3 (last default
+ *             good/bad), the quadruples; 12 layouts; memory-backed, and
+ *             callback-backed for the lists of length 0..2 */
+static void
+hfamily_enumerate(bool thorough, hfn fn)
+{
+    static const struct {
+        int na;
+        uint32_t base[3], size[3];
+    } L[] = {
+        { 0, { 0 }, { 0 } },
+        { 1, { 0 }, { 4 } },
+        { 2, { 0, 2 }, { 2, 2 } },
+        { 2, { 0, 3 }, { 2, 2 } },
+        { 3, { 0, 2, 4 }, { 2, 2, 2 } },
+        { 3, { 0, 3, 6 }, { 2, 2, 2 } },
+        { 2, { 2, 0 }, { 2, 2 } },
+        { 2, { 0, 2 }, { 3, 2 } },
+        /* thorough only from here */
+        { 1, { 1 }, { 6 } },
+        { 3, { 1, 3, 4 }, { 2, 1, 4 } },
+        { 3, { 0, 4, 2 }, { 2, 2, 2 } },
+        { 2, { 0, 4 }, { 4, 4 } },
+    };
+    const int nl = thorough ? 12 : 8;
+    const uint32_t amax = 7;
+    const int nsz = thorough ? 3 : 2;
+    const int per = (int)(amax + 1) * nsz;
+    const int nback = 2;
+    for (int li = 0; li < nl; ++li)
+        for (int back = 0; back < nback; ++back) {
+            struct aspec a[3];
+            memset(a, 0, sizeof a);
+            for (int i = 0; i < L[li].na; ++i)
+                a[i] = (struct aspec){ L[li].base[i], L[li].size[i], REG_AF_RW, false, false };
+            uint32_t ra[4], rw[4];
+            bool bad[4] = { false, false, false, false };
+            const int variant = li & 1;
+            hdesc_emit(fn, a, L[li].na, back, ra, rw, bad, 0, variant);
+            for (int len = 1; len <= (back ? 2 : 3); ++len) { /* callback-backed: lists of length 0..2 */
+                int total = 1;
+                for (int i = 0; i < len; ++i)
+                    total *= per;
+                for (int x = 0; x < total; ++x) {
+                    int y = x;
+                    for (int i = 0; i < len; ++i) {
+                        const int el = y % per;
+                        y /= per;
+                        ra[i] = (uint32_t)(el / nsz);
+                        rw[i] = RSZ[el % nsz];
+                    }
+                    if (len == 3 && !thorough && !(ra[0] <= ra[1] && ra[1] <= ra[2]))
+                        continue;
+                    for (int b = 0; b < 2; ++b) {
+                        if (b && len == 3 && !thorough)
+                            continue;
+                        bad[0] = bad[1] = bad[2] = false;
+                        bad[len - 1] = b;
+                        hdesc_emit(fn, a, L[li].na, back, ra, rw, bad, len, variant);
+                    }
+                }
+            }
+            bad[0] = bad[1] = bad[2] = bad[3] = false;
+            if (back)
+                continue;
+            for (uint32_t w = 0; w <= amax; ++w)
+                for (uint32_t x = w + 1; x <= amax; ++x)
+                    for (uint32_t y = x + 1; y <= amax; ++y)
+                        for (uint32_t z = y + 1; z <= amax; ++z) {
+                            ra[0] = w; ra[1] = x; ra[2] = y; ra[3] = z;
+                            rw[0] = rw[1] = rw[2] = rw[3] = 1;
+                            hdesc_emit(fn, a, L[li].na, back, ra, rw, bad, 4, variant);
+                        }
+        }
+}
+
+static struct hresidue *hres;
+static int nhres, hres_cap;
+static long nhd;
+static struct gtab hg, hf;
+static struct mc_set hset;
+static bool h_thorough;
+
+static void
+hkey_of(const struct gtab *g, struct hkey *k)
+{
+    memset(k, 0, sizeof *k);
+    k->flags = g->t.flags & (uint32_t)~REG_TF_BIG_ENDIAN; /* the byte order belongs to the description */
+    k->areas = g->t.areas;
+    k->entries = g->t.entries;
+    for (int i = 0; i <= H_CAPA; ++i) {
+        k->afirst[i] = g->areas[i].entry.first;
+        k->alast[i] = g->areas[i].entry.last;
+        k->acount[i] = g->areas[i].entry.count;
+    }
+    for (int i = 0; i <= H_CAPR; ++i) {
+        const RegisterArea *l = g->entries[i].area;
+        k->elink[i] = l == NULL ? -1 : (l >= g->areas && l <= g->areas + H_CAPA) ? (int32_t)(l - g->areas) : -2;
+        k->eoff[i] = g->entries[i].offset;
+        k->eflags[i] = g->entries[i].flags;
+    }
+}
+
+static void
+hresidue_take(const struct gtab *g, const struct hdesc *d1)
+{
+    if (nhres == hres_cap) {
+        hres_cap = hres_cap ? 2 * hres_cap : 256;
+        hres = realloc(hres, (size_t)hres_cap * sizeof *hres);
+        if (!hres)
+            mc_broken("out of memory");
+    }
+    struct hresidue *r = &hres[nhres++];
+    memset(r, 0, sizeof *r);
+    r->t = g->t;
+    memcpy(r->areas, g->areas, sizeof r->areas);
+    memcpy(r->entries, g->entries, sizeof r->entries);
+    if (!d1)
+        snprintf(r->text, sizeof r->text, "fresh object");
+    else {
+        char ptext[200];
+        snprintf(r->text, sizeof r->text, "object initialised before with %s %s", d1->be ? "BE" : "LE",
+                 lists_str(d1->a, d1->na, d1->r, d1->nr, ptext, sizeof ptext));
+    }
+}
+
+static void
+hresidue_put(struct gtab *g, const struct hresidue *r)
+{
+    g->t = r->t;
+    memcpy(g->areas, r->areas, sizeof r->areas);
+    memcpy(g->entries, r->entries, sizeof r->entries);
+    /* the blocks behind the old description are gone: no descriptor keeps a
+     * pointer to them (the new description sets the ones it uses) */
+    for (int i = 0; i <= H_CAPA; ++i)
+        g->areas[i].mem = NULL;
+}
+
+static void
+hresidue_visit(const struct hdesc *d)
+{
+    struct hkey k;
+    gtab_fresh(&hg);
+    gtab_describe(&hg, d->a, d->na, d->r, d->nr, d->be, false);
+    (void)register_init(&hg.t);
+    hkey_of(&hg, &k);
+    if (mc_set_add(&hset, &k, sizeof k, -1, 0, NULL))
+        hresidue_take(&hg, d);
+}
+
+/* all residues of the family, in the order of their first D1 */
+static void
+hresidues_build(void)
+{
+    struct hkey k;
+    mc_set_init(&hset);
+    nhres = 0;
+    gtab_fresh(&hg);
+    hkey_of(&hg, &k);
+    mc_set_add(&hset, &k, sizeof k, -1, 0, NULL);
+    hresidue_take(&hg, NULL);
+    hfamily_enumerate(h_thorough, hresidue_visit);
+    mc_set_free(&hset);
+}
+
+static void
+hcase_visit(const struct hdesc *D)
+{
+    char dtext[200];
+    nhd++;
+    if (!mc_would_run()) {
+        mc_skip_case();
+        return;
+    }
+    lists_str(D->a, D->na, D->r, D->nr, dtext, sizeof dtext);
+    if (!mc_case("re-initialisation: %s %s after every first description of the family (by residue)", D->be ? "BE" : "LE", dtext))
+        return;
+    if (!hg.areas) {
+        gtab_alloc(&hg, H_CAPA, H_CAPR);
+        gtab_alloc(&hf, H_CAPA, H_CAPR);
+        hresidues_build();
+    }
+    n_ok = n_bad = 0;
+    /* the fresh twin */
+    gtab_fresh(&hf);
+    gtab_describe(&hf, D->a, D->na, D->r, D->nr, D->be, false);
+    const bool fresh_ok = register_init(&hf.t).code == REG_INIT_SUCCESS;
+    mc_trans(1);
+    uint32_t hi = 0;
+    for (int i = 0; i < D->na; ++i)
+        if (D->a[i].base + D->a[i].size > hi)
+            hi = D->a[i].base + D->a[i].size;
+    bool ok = true;
+    for (int ri = 0; ri < nhres && ok; ++ri) {
+        hresidue_put(&hg, &hres[ri]);
+        gtab_describe(&hg, D->a, D->na, D->r, D->nr, D->be, false);
+        bool acc;
+        ok = g_init_and_check(&hg, hres[ri].text, &acc);
+        if (ok && acc && fresh_ok)
+            ok = iter_same(&hg.t, &hf.t, 0, hi + 1, hres[ri].text, "re-initialised");
+    }
+    mc_end(true, !ok ? "failed" : n_ok == 0 ? "reinit-refused" : n_bad == 0 ? "reinit-accepted" : "reinit-mixed");
+}
+
+static void
+family_history(bool thorough)
+{
+    h_thorough = thorough;
+    nhd = 0;
+    hfamily_enumerate(thorough, hcase_visit);
+}
+
+#define NEWBOUND_Q "; dirty-descriptor runs also compared with a fresh twin under every iteration window; WIDE: one area of {6,0xffff,0x10000,0x10001,0x10004,0x1ffff,0x20001} words at 10 bases (0, 0x1000, 0xfffd, 0x10000, 0x7ffffffe, ending at 2^31, ending 5/2/1/0 words below 2^32) x neighbour {none, adjacent behind, one word behind, adjacent before, on the last two words, before but listed behind} x {callback-backed, memory-backed} x all register lists of length 0..2 over the addresses around start / offset 2^16 / end x size {1,2,4} x bad-default masks x variants (memory-backed: singles and pairs led by a register at the base; malformed area lists: length 0..1); LONG: {255..258, 65535..65538} 16-bit registers in one or two areas (split around 2^8 / 2^16) x one violated rule {none, order, overlap, default, hole, straddle, beyond} at indices around 2^8 / 2^16 / last; {254..258} areas of 4 words x one violated rule at indices around 2^8; HISTORY: every ordered pair (D1, D2) of 16960 descriptions (8 area layouts x register lists over address 0..7 x size {1,2}: all of length 0..2 with the last default good/bad, all triples with non-descending starts and all ascending 16-bit quadruples memory-backed, all of length 0..2 callback-backed), D1 reduced to its residue in the descriptors, D2 checked as fresh plus iteration over every window compared with a fresh twin"
+#define NEWBOUND_T "; dirty-descriptor runs also compared with a fresh twin under every iteration window; WIDE: one area of {6,0xffff,0x10000,0x10001,0x10004,0x1ffff,0x20001} words at 10 bases (0, 0x1000, 0xfffd, 0x10000, 0x7ffffffe, ending at 2^31, ending 5/2/1/0 words below 2^32) x neighbour {none, adjacent behind, one word behind, adjacent before, on the last two words, before but listed behind} x {callback-backed, memory-backed} x all register lists of length 0..3 (3: ascending starts) over the addresses around start / offset 2^16 / end x size {1,2,4} x bad-default masks x variants (memory-backed: singles and pairs led by a register at the base; malformed area lists: length 0..1); LONG: {255..258, 65535..65538} 16-bit registers in one or two areas (split around 2^8 / 2^16) x one violated rule {none, order, overlap, default, hole, straddle, beyond} at indices around 2^8 / 2^16 / last; {254..258} areas of 4 words x one violated rule at indices around 2^8; HISTORY: every ordered pair (D1, D2) of 361440 descriptions (12 area layouts x register lists over address 0..7 x size {1,2,4}: all of length 0..3 with the last default good/bad and the ascending 16-bit quadruples memory-backed, all of length 0..2 callback-backed), D1 reduced to its residue in the descriptors, D2 checked as fresh plus iteration over every window compared with a fresh twin"
+
 int
 main(int argc, char **argv)
 {
     mc_init(argc, argv);
     int64_t ncase = 0;
-    char bound[400];
+    char bound[2600];
     if (!mc_thorough()) {
         const struct grid g1 = { 2, 2, 6, 3, { 1, 2, 4 }, 8 };
         enum_all(&g1, &ncase);
@@ -483,7 +1651,7 @@ main(int argc, char **argv)
             for (int r = 0; r < 5; ++r)
                 for (int nr = 3; nr <= 5; ++nr)
                     run_lists(&g2, AB[a], AS[a], 3, RA[r], RS[r], nr, &ncase);
-        snprintf(bound, sizeof bound, "all area lists of length 0..2 over base 0..6 x size {1,2,4} x all register lists of length 0..2 over address 0..8 x size {1,2,4}; 60 curated 3-area / 3..5-register tables; each x bad-default masks x area options x LE/BE type variants x fresh/re-init");
+        snprintf(bound, sizeof bound, "all area lists of length 0..2 over base 0..6 x size {1,2,4} x all register lists of length 0..2 over address 0..8 x size {1,2,4}; 60 curated 3-area / 3..5-register tables; each x bad-default masks x area options x LE/BE type variants x fresh/re-init%s", NEWBOUND_Q);
     } else {
         const struct grid g1 = { 2, 3, 8, 4, { 1, 2, 3, 4 }, 10 };
         enum_all(&g1, &ncase);
@@ -501,8 +1669,12 @@ main(int argc, char **argv)
             }
             enum_regs(&g3, ab, as, 3, &ncase);
         }
-        snprintf(bound, sizeof bound, "all area lists of length 0..2 over base 0..8 x size {1,2,3,4} x all register lists of length 0..3 over address 0..10 x size {1,2,4}; all 3-area lists over base {0,1,2,4,5,8} x size {1,2,4} x all register lists of length 0..2; each x bad-default masks x area options x LE/BE type variants x fresh/re-init");
+        snprintf(bound, sizeof bound, "all area lists of length 0..2 over base 0..8 x size {1,2,3,4} x all register lists of length 0..3 over address 0..10 x size {1,2,4}; all 3-area lists over base {0,1,2,4,5,8} x size {1,2,4} x all register lists of length 0..2; each x bad-default masks x area options x LE/BE type variants x fresh/re-init%s", NEWBOUND_T);
     }
+    family_wide(mc_thorough());
+    family_long(mc_thorough());
+    family_areas(mc_thorough());
+    family_history(mc_thorough());
     mc_finish(true, bound);
     return 0;
 }
